@@ -67,6 +67,25 @@ CHECKS = {
         "shape and dtype (or same exception type)."),
   technique="TLC model checking + spec-schedule replay against undecorated functions",
  ),
+ "C20": dict(
+  level="model_checking",
+  design_ref="DESIGN.md section 5, C20",
+  text=("SummariesSpec defines min/max/mean as exact rationals of the "
+        "non-NaN values and models dclab's production steps (append blocks "
+        "in any partition, writer re-opened, replace mode, summaries "
+        "missing, compress/repack/condense/export) with the transcribed "
+        "attribute update; TLC checks StoredCorrect for all histories in "
+        "the bound (the size-weighted running mean as found yields the "
+        "counterexample, the repaired one passes). All histories up to the "
+        "depth bound are executed on real .rtdc files and after every step "
+        "min()/max()/mean() of the HDF5 feature object and of a hierarchy "
+        "child, and the stored values, are compared with TLC's rationals."),
+  note=("values in {-2, 3, NaN} for replay ({-2,0,1,3,NaN} for the design "
+        "run), blocks of length <= 2, quick depth 3 (every third history, "
+        "offset by seed), thorough depth 4; float and uint32 features; "
+        "join and basin readers are compared in the C09/C07 checks."),
+  technique="TLC model checking + spec-history replay on real files",
+ ),
 }
 
 NOT_YET = "check not built yet (work in progress; see DESIGN.md section 5)"
